@@ -86,6 +86,34 @@ def run_shard(desc):
                 part["violations"].append({"sig": [kind_, "enum"], "what": detail, "replay": None})
             else:
                 part["inconclusive"].append("%s: %s" % (kind_, detail))
+    elif kind == "special":
+        # malformed literals and separators that must be rejected, each also as the very first engine call of a
+        # fresh process (lazy initialisation must not change what is accepted)
+        bad = ["1.2.3", "1..2", "1.2.", "12e", "1e+", "0.0000000000000000000000000001.2.3", "12345678901234567890123456789.1.1", "0.0000000000000000000000000001e5", "0.00000000000000000000000000001.",
+               "'abc", "\"abc", "'a\" + 1", "1 + 'x", "[1, 'a]", "f('x)", "in [1, 2]", "in", "beginWith 'a'", "endWith", "++ a", "-- 1", "&& true", "|| x", "== 1", "<<= 2", "* 3", ": 2", "? 1",
+               "not", "not in [1]", "AND", "OR", "- ", "!", "a not", "a not b", "1 in", "x ? 1", "x ? 1 :", "x ? : 2", "[1 2]", "[1;2]", "{1 2}", "{1:2 3:4}", "{1:}", "{:1}", "f(1 2)", "f(,1)", "(1", "1)", "[1", "1]",
+               "{1:2", "1:2}", "()", "(,)", "[,]", "{,}", "f(,)", ",", ";", ";;", "1;;2", "1,2", "a b,", "a = ", "= 1", "1 +", "+ * 2"]
+        good_first = ["not true", "AND [true]", "OR [false, true]", "- 1", "! true", "+ 2", "(1)", "[1]", "f()", "", " ", "'in'"]
+        for i, s_ in enumerate(bad + good_first):
+            for fresh in (False, True):
+                steps = ([{"op": "parse", "text": "1"}] if not fresh else []) + [{"op": "parse", "text": s_}]
+                run = common.run_vexec(steps, wd, "special-%d-%d" % (i, fresh), profile)
+                st = run.steps()
+                if not run.ended or not st:
+                    part["inconclusive"].append("special run failed")
+                    continue
+                r = st[-1]
+                part["evaluations"] += 1
+                C["wl_special"] = C.get("wl_special", 0) + 1
+                stt, toks = judge_accepted(s_)
+                if r.get("p") == "ok" and stt == "out":
+                    viol(s_, toks, "as the FIRST engine call of a fresh process," if fresh else "input")
+                    part["violations"][-1]["sig"] = ["accepted-outside-grammar", "first-call" if fresh else "special", s_[:20]]
+                    part["violations"][-1]["replay"] = {"steps": steps, "profile": profile}
+                elif r.get("p") == "err" and s_ in good_first and stt == "in" and s_.strip():
+                    part["violations"].append({"sig": ["valid-first-input-rejected", s_], "what": "`%s` is valid but was rejected%s: %s" % (s_, " as the first engine call of a fresh process" if fresh else "", r.get("perr")), "replay": {"steps": steps, "profile": profile}})
+                else:
+                    part["classes"].add("special:%s:%s" % ("fresh" if fresh else "warm", r.get("p")))
     else:
         tg = gen.TreeGen(rnd, leafp=0.35)
         inputs = []  # (text, how)
@@ -148,6 +176,7 @@ def run(rep, tier):
     common.build("release")
     L = 5 if tier == "quick" else 6
     shards = [("enum", i, 16, L, "release") for i in range(16)]
+    shards += [("special", 0, 0, 0, "verifdbg"), ("special", 1, 0, 0, "release")]
     nt = 1600 if tier == "quick" else 40000
     nc = 16000 if tier == "quick" else 400000
     shards += [("tokfault", i, 0, nt // 16, "release" if i % 2 else "verifdbg") for i in range(16)]
